@@ -53,7 +53,39 @@ BANDS = [(0.5, 2.0), (1.0, 4.0), (1.0, 3.0)]
 
 
 # ------------------------------------------------------------------ script generation
+def _gen_jitter_overlap(rng, idx):
+  """A jitter round (expand, wait for the open, forced contract) overlapping membership changes and
+  channel failures: the forced contraction must still respect the floor."""
+  min_size = rng.choice([1, 2, 2, 3])
+  members = min_size + rng.choice([1, 1, 2])
+  jitter = rng.choice([7, 9])
+  ops = [['opendone', 0, 1] for _ in range(min_size)]
+  ops.append(['auto', 0])
+  live = list(range(1, members + 1))
+  ops.append(['adv', rng.choice([jitter * 1000, jitter * 2000, jitter * 2000 + 1000])])   # the jitter timer fires, an open is pending
+  for _ in range(rng.randint(1, 3)):
+    q = rng.random()
+    if q < 0.6 and live:
+      m = rng.choice(live)
+      live.remove(m)
+      ops.append(['leave', m])
+    elif q < 0.8:
+      ops.append(['chan', rng.randint(1, members), 4])
+    else:
+      ops.append(['disp'])
+  ops.append(['opendone', 0, rng.choice([1, 1, 0])])     # the jitter's open completes: forced contraction
+  ops.append(['opendone', 0, 1])
+  ops.append(['adv', 1000])
+  ops.append(['auto', 1])
+  ops.append(['steady', 1, 8, 1000, 0])
+  ops.append(['adv', rng.choice([1000, jitter * 2000])])
+  return {'min_size': min_size, 'max_size': rng.choice([min_size, min_size + 1, 5]), 'band': list(BANDS[0]), 'members': members,
+          'jitter': jitter, 'rseed': rng.randint(0, 1 << 30), 'ops': ops}
+
+
 def _gen_script(rng, idx):
+  if idx % 6 == 5:
+    return _gen_jitter_overlap(rng, idx)
   band = BANDS[idx % 3] if rng.random() < 0.8 else BANDS[0]
   min_size = rng.choice([1, 1, 2, 2, 3])
   max_size = rng.choice([1, 2, 3, 3, 4, 5, 5])
